@@ -1,12 +1,24 @@
-//! Kani harnesses for unit catalog (see /verif/notes/AGENT-BRIEF.md for naming: full_*, bnd_*, cex_*).
-//!
-//! None.  C22 is covered by the Verus unit `catalog`.  A concrete harness for the
-//! pruning defect (insert `e.`, insert `a.e.`, remove `a.e.`, get `e.`) and a
-//! bounded check of `HashMapTreeCatalog::iter` were tried and dropped: every
-//! path goes through `std::collections::HashMap::new()`, whose `RandomState`
-//! seeds from the OS (getrandom) - CBMC cannot execute that, and
-//! `#[kani::stub(std::sys::random::hashmap_random_keys, ..)]` does not resolve
-//! with Kani 0.68 ("unable to find `sys`": the std function is private).
-//! The defect is demonstrated natively instead (see
-//! /verif/notes/agent_reports/catalog.md, `examples/c22_remove_prune.rs`).
+//! Kani harnesses for unit catalog.
 #![allow(unused_imports, dead_code)]
+use std::sync::Arc;
+use crate::class::Class;
+use crate::db::catalog::{Catalog, Entry};
+use crate::db::zone::GluePolicy;
+use crate::db::{HashMapTreeCatalog, HashMapTreeZone};
+use crate::name::Name;
+
+/// std's RandomState seeds itself from the OS, which CBMC cannot execute; a
+/// fixed seed is as good as any for a functional check.
+pub(crate) fn fixed_random_state() -> std::hash::RandomState {
+    unsafe { std::mem::transmute::<[u64; 2], std::hash::RandomState>([1, 2]) }
+}
+
+#[kani::proof]
+#[kani::unwind(12)]
+#[kani::stub(std::hash::RandomState::new, crate::verif_kani::catalog::fixed_random_state)]
+pub(crate) fn bnd_catalog_probe() {
+    let mut cat: HashMapTreeCatalog<HashMapTreeZone, ()> = HashMapTreeCatalog::new();
+    let e: Box<Name> = "e.".parse().unwrap();
+    cat.insert(Entry::NotYetLoaded(e.clone(), Class::IN, ()));
+    assert!(cat.get(&e, Class::IN).is_some());
+}
